@@ -1228,6 +1228,7 @@ def stream_dammit_raising(ctx, drv, byte_cases):
     table = E.class_table()
     pool = [UnicodeDecodeError, LookupError, ValueError, TypeError, UnicodeError, E.HarnessError, KeyboardInterrupt, E.HarnessBaseError,
             StopIteration, table["parserRejectedMarkup"], AssertionError, RecursionError, UnicodeEncodeError]
+    hooked = set(E.hooked_points())      # a primitive the code no longer reaches through the patched name gets no injections
     r = ctx.rng("dammit-raising")
     sample = [c for c in byte_cases if isinstance(c[1], bytes) and c[1] != b""]
     r.shuffle(sample)
@@ -1274,6 +1275,10 @@ def stream_dammit_raising(ctx, drv, byte_cases):
         plan_lookup, plan_decode = {}, {}
         gen_raise = r.choice(pool) if r.random() < 0.12 else None
         log_raise = r.choice(pool) if r.random() < 0.12 else None
+        if "cands" not in hooked:
+            gen_raise = None
+        if "logWarning" not in hooked:
+            log_raise = None
         spell_rows, look_rows, canon_rows, low_rows, tab_rows = [], [], [], [], []
         for e in encs:
             name_id.setdefault(e, len(name_id) + 1)
@@ -1281,7 +1286,7 @@ def stream_dammit_raising(ctx, drv, byte_cases):
             for x in sps:
                 if x not in sp_id:
                     sp_id[x] = len(sp_id) + 1
-                    if r.random() < 0.15:
+                    if r.random() < 0.15 and "lookup" in hooked:
                         plan_lookup[x] = r.choice(pool)
                         look_rows.append(f"{sp_id[x]}:!{E.proto_name(plan_lookup[x])}")
                     else:
@@ -1299,7 +1304,7 @@ def stream_dammit_raising(ctx, drv, byte_cases):
         for c, cid in codec_id.items():
             row = []
             for errors in ("strict", "replace"):
-                if r.random() < 0.25:
+                if r.random() < 0.25 and "decode" in hooked:
                     plan_decode[(c, errors)] = r.choice(pool)
                     row.append("!" + E.proto_name(plan_decode[(c, errors)]))
                 else:
